@@ -300,6 +300,14 @@ class SymX(Domain):
             if per:
                 obj.dom["SYMX_idx"] = {k: _apply(op, x, d) for k, x in per.items()}
 
+    def on_assign(self, it, name, v, stmt, st):
+        # value numbering: a local whose defining expression is outside the supported
+        # fragment becomes an opaque (array) atom, so identities around it can still be
+        # compared within the same run
+        if v.dom.get(self.name) is None and v.kind in ("arr", "num") and any(d.startswith(("in:", "out:")) for d in v.dep) and v.obj is None:
+            ln = getattr(stmt, "lineno", 0)
+            v.dom[self.name] = self.table.get("opq:%s@L%d%s" % (name, ln, self.pass_tag(it).replace("@", "p")), array=True, positive=False)
+
     def on_aug(self, it, op, cur, rhs, res, st):
         a = cur.dom.get(self.name)
         if a is None:
